@@ -27,12 +27,13 @@ type RunConfig struct {
 	SolverKind            string
 	LogDir                string
 	MaxViolationsPerLabel int
+	IncTimeoutMs int // timeout of the incremental solver before the one-shot fallback
 	CheckIntOverflow      bool
 	Known                 map[string][]*KnownFinding
 }
 
 func defaultConfig() *RunConfig {
-	return &RunConfig{MaxDecisions: 4000, MaxDepth: 200, MaxLoop: 5000, Workers: 16, TimeoutMs: 60000, MaxPaths: 2000000, SolverKind: defaultSolver(), MaxViolationsPerLabel: 1}
+	return &RunConfig{MaxDecisions: 4000, MaxDepth: 200, MaxLoop: 5000, Workers: 16, TimeoutMs: 60000, IncTimeoutMs: 4000, MaxPaths: 2000000, SolverKind: defaultSolver(), MaxViolationsPerLabel: 1}
 }
 
 type Violation struct {
@@ -112,6 +113,24 @@ func explore(L *Loaded, init *InitState, fn *ssa.Function, cfg *RunConfig) *Harn
 	wl.cond = sync.NewCond(&wl.Mutex)
 	wl.items = [][]int{{}}
 	var wg sync.WaitGroup
+	done := make(chan struct{})
+	go func() {
+		tk := time.NewTicker(20 * time.Second)
+		defer tk.Stop()
+		for {
+			select {
+			case <-done:
+				return
+			case <-tk.C:
+				wl.Lock()
+				q, a, st := len(wl.items), wl.active, wl.started
+				wl.Unlock()
+				hr.mu.Lock()
+				fmt.Fprintf(os.Stderr, "[%s %.0fs] paths started=%d finished=%d queued=%d active=%d violations=%d aborts=%d\n", hr.Name, time.Since(start).Seconds(), st, hr.Paths, q, a, len(hr.Violations), len(hr.Aborts))
+				hr.mu.Unlock()
+			}
+		}
+	}()
 	for w := 0; w < cfg.Workers; w++ {
 		wg.Add(1)
 		go func(w int) {
@@ -120,7 +139,11 @@ func explore(L *Loaded, init *InitState, fn *ssa.Function, cfg *RunConfig) *Harn
 			if cfg.LogDir != "" {
 				logPath = fmt.Sprintf("%s/%s.w%d.smt2", cfg.LogDir, fn.Name(), w)
 			}
-			solver, err := NewSolver(cfg.SolverKind, cfg.TimeoutMs, logPath)
+			solver, err := NewSolver(cfg.SolverKind, cfg.IncTimeoutMs, logPath)
+			if err == nil {
+				solver.Fallback = true
+				solver.FallbackMs = cfg.TimeoutMs
+			}
 			if err != nil {
 				hr.mu.Lock()
 				hr.Aborts["SOLVER: "+err.Error()]++
@@ -173,12 +196,14 @@ func explore(L *Loaded, init *InitState, fn *ssa.Function, cfg *RunConfig) *Harn
 		}(w)
 	}
 	wg.Wait()
+	close(done)
 	hr.Wall = time.Since(start)
 	return hr
 }
 
 func runPath(L *Loaded, init *InitState, fn *ssa.Function, cfg *RunConfig, solver *Solver, prefix []int, hr *HarnessRun) (pending [][]int) {
 	e := newExec(L, init, cfg, solver)
+	solver.Inputs = func() []*Term { return e.Inputs }
 	e.prefix = prefix
 	e.H = hr
 	e.Funcs = map[string]bool{}
@@ -351,6 +376,9 @@ func termValString(t *Term) string {
 }
 
 func (s *Solver) EvalTerm(t *Term) *Term {
+	if s.oneShotVals != nil {
+		return nil // the model lives in the one-shot process
+	}
 	name := s.emit(t)
 	s.send("(get-value (" + name + "))")
 	text := s.readSexp()
@@ -411,7 +439,15 @@ func init() {
 	reg := func(m string, f func(e *Exec, fn *ssa.Function, a []Value) Value) { intrinsics[vrtKey(m)] = f }
 	intIn := func(kind string, w int) func(e *Exec, fn *ssa.Function, a []Value) Value {
 		return func(e *Exec, fn *ssa.Function, a []Value) Value {
-			return e.declareInput(e.concreteStr(a[1], "input name"), BVSort(w), kind)
+			name := e.concreteStr(a[1], "input name")
+			if LiftMulDiv && w >= 32 && kind[0] == 'u' {
+				// integer-arithmetic mode: the input is an Int in [0, 2^w) viewed as a bit-vector
+				t := e.declareInput(name, IntSort, kind)
+				e.assume(And(IGe(t, IntI(0)), ILt(t, IntC(new(big.Int).Lsh(bigOne, uint(w))))))
+				t.NatW = w
+				return Int2BV(w, t)
+			}
+			return e.declareInput(name, BVSort(w), kind)
 		}
 	}
 	reg("U64", intIn("u64", 64))
